@@ -298,15 +298,79 @@ def _histories(ctx, rep, model_ok):
         shutil.rmtree(base, ignore_errors=True)
 
 
+def _retried_commits(ctx, rep):
+    """histories in which a commit LOSES an optimistic-concurrency race and retries on a fresh base (another handle commits while it is
+    preparing its manifests): the retried snapshot must be well-formed against the version it finally commits onto"""
+    base = scratch_dir("c15r-")
+    try:
+        for intruder in ("append", "delete", "expire", "delsnap"):
+            for victim in ("append", "delete"):
+                path = os.path.join(base, f"r-{intruder}-{victim}")
+                t = tablekit.create(path)
+                ghost = invariants.Ghost()
+                t.append_records(tablekit.rows(1, start=0))
+                t.append_records(tablekit.rows(1, start=10))
+                invariants.observe(path, ghost)
+                a, b = tablekit.load(path), tablekit.load(path)
+                fm = a.file_manager
+                orig = fm.create_manifest_list_file
+                fired = {"n": 0}
+
+                def hooked(*args, _o=orig, **kw):
+                    if fired["n"] == 0:
+                        fired["n"] = 1
+                        if intruder == "append":
+                            b.append_records(tablekit.rows(1, start=500))
+                        elif intruder == "delete":
+                            with b.new_transaction() as tx:
+                                tx.delete_files(["/" + tablekit.data_paths(b)[0]])
+                                tx.commit()
+                        elif intruder == "expire":
+                            with b.new_transaction() as tx:
+                                tx.expire_snapshots(0)
+                                tx.commit()
+                        else:
+                            b.snapshot_manager.delete_snapshot(b.snapshots()[0]["snapshot_id"])
+                    return _o(*args, **kw)
+                fm.create_manifest_list_file = hooked
+                case = {"kind": "retried-commit", "intruder": intruder, "victim": victim}
+                try:
+                    if victim == "append":
+                        a.append_records(tablekit.rows(1, start=900))
+                    else:
+                        with a.new_transaction() as tx:
+                            tx.delete_files(["/" + tablekit.data_paths(a)[-1]])
+                            tx.commit()
+                except Exception as e:      # noqa: BLE001
+                    rep.distribution[f"retry:{intruder}/{victim}:raise:{type(e).__name__}"] += 1
+                finally:
+                    fm.create_manifest_list_file = orig
+                rep.evaluations += 1
+                rep.nontrivial(["retry", intruder, victim])
+                res = invariants.observe(path, ghost)
+                if isinstance(res, list):
+                    rep.violate("C15:pointer-unreadable", str(res), case)
+                    continue
+                bad, md = res
+                bad2, _paths = invariants.observe_manifests(path, ghost, md)
+                for b_ in bad + bad2:
+                    rep.violate("C15:invariant:" + b_.split(" ")[0] + "-" + b_.split(" ")[1], f"after a retried {victim} (a concurrent {intruder} won the race): {b_}", case)
+                shutil.rmtree(path, ignore_errors=True)
+    finally:
+        shutil.rmtree(base, ignore_errors=True)
+
+
 def run(ctx, model_ok):
     rep = Report()
     rep.rule = ("repoint: every forest of ≤3 snapshots (parents None/-1/any id incl. self, cycles, dangling) × every kept subset, every 7th "
                 "forest of 4 (thorough: all of 4, every 23rd of 5); timestamp lookup / most-recent / metadata-log functions on random inputs "
                 "with ties and invalid property values; real-table histories of 3–8 (thorough –20) operations over {append, append+expire, "
                 "delete files, expire, delete snapshot, retention property, metadata-log bound} with out-of-order and equal timestamps, compared "
-                "with meta.run after every step and checked by an independent invariant checker. non-trivial = distinct case / history ≥3 ops.")
+                "with meta.run after every step and checked by an independent invariant checker; 8 retried commits (a concurrent append / delete / "
+                "expire / delete-snapshot wins the race while an append / delete prepares its manifests) checked by the same invariants. non-trivial = distinct case / history ≥3 ops.")
     _check_repoint(ctx, rep, model_ok)
     _check_lookups(ctx, rep, model_ok)
     _check_mlog(ctx, rep, model_ok)
     _histories(ctx, rep, model_ok)
+    _retried_commits(ctx, rep)
     return rep
